@@ -15,7 +15,7 @@ from vf.core import absval as av
 from vf.core import reencode, wire
 from vf.core.runner import Ctx, HarnessError, Tally, Violation, merge_tallies, pmap_shards
 from vf.core.schema import PACKABLE, Field, Msg, Schema, base_kind, kind_arg
-from vf.core.smallscope import limit_memory, run_guarded
+from vf.core.smallscope import hkey, limit_memory, run_guarded
 from vf.core.universe import Universe, get_universe, unit_values, all_units
 
 LEVEL = "fault_enumeration"
@@ -145,6 +145,11 @@ def judge(tname: str, data: bytes, tally: Tally, expect_known_from_ref: bool = F
         why = None
     if status == "raise":
         tally.mark("raise_types", type(res).__name__)
+        if must_keep is not None and ref_ok and why is None:
+            # a well-formed record with a wire type that does not fit the declared type must be
+            # KEPT as an unknown field (the reference accepts this input), not rejected
+            fails.append(("mismatch-rejected",
+                          f"{data.hex()[:60]}: well-formed record {must_keep.hex()} with an unfitting wire type made decoding raise {type(res).__name__}: {res}"[:300]))
         return fails
     msg = res
     if why is not None:
@@ -327,7 +332,7 @@ def _shard_faults(shard: int, nshards: int, extra) -> Tally:
             seen.add(data)
             t.inc("evaluations")
             if fault != "truncate-at-boundary":
-                t.mark("nontrivial", (tname, data))
+                t.mark("nontrivial", hkey(tname, data))
             t.mark("fault_kinds", fault)
             for oracle, detail in judge(tname, data, t, opts.get("ref_known", False), opts.get("must_keep")):
                 sig = sig_for(tname, oracle, fault)
@@ -357,7 +362,7 @@ def _shard_short(shard: int, nshards: int, maxlen: int) -> Tally:
             data = bytes(tup)
             for tname in REPRESENTATIVE:
                 t.inc("evaluations")
-                t.mark("nontrivial", (tname, data))
+                t.inc("nontrivial_short")  # distinct by construction (every string once per class)
                 for oracle, detail in judge(tname, data, t):
                     sig = sig_for(tname, oracle, f"short-bytes")
                     if tuple(sig) in seen_sig:
@@ -382,7 +387,7 @@ def run(ctx: Ctx) -> None:
     agree = {k: v for k, v in t.n.items() if k.startswith("agree_")}
     ctx.coverage.update(
         evaluations=t.n.get("evaluations", 0),
-        distinct_nontrivial=len(t.sets.get("nontrivial", ())),
+        distinct_nontrivial=len(t.sets.get("nontrivial", ())) + t.n.get("nontrivial_short", 0),
         rule="faults enumerated completely per valid encoding: every truncation point, every tag/length "
              "byte x {8 single-bit flips, 00, 7f, 80, ff}, a well-formed record of every other wire type "
              "(0,1,2,5,6,7) before/after, groups around known-looking content, declared-length "
